@@ -57,6 +57,20 @@ def check_n(d: dict[str, Any]) -> list[str]:
         big[::2, ::2] = m
         variants.append(('strided', big[::2, ::2]))
         variants.append(('transposed', m.t()))
+        # value classes: packing is pure data movement, so it is exact for
+        # EVERY representable value (largest finite, subnormal, signed zero,
+        # infinities)
+        fi = torch.finfo(dt)
+        ext = m.clone()
+        vals = [fi.max, -fi.max, fi.tiny, -fi.tiny / 2 if dt != torch.bfloat16
+                else fi.tiny, 0.0, -0.0, fi.max * 0.75, float('inf'),
+                -float('inf'), fi.eps]
+        for a in range(n):
+            for b in range(a, n):
+                x_ = vals[(a * 3 + b) % len(vals)]
+                ext[a, b] = x_
+                ext[b, a] = x_
+        variants.append(('extreme values', ext))
         for nm, x in variants:
             try:
                 y = fill_triu(tuple(x.shape), get_triu(x))
@@ -64,7 +78,8 @@ def check_n(d: dict[str, Any]) -> list[str]:
                 bad.append(f'n={n} {dt} {nm}: {type(e).__name__}: {e}'[:200])
                 continue
             if y.dtype != x.dtype or y.shape != x.shape or \
-                    not torch.equal(y, x):
+                    not torch.equal(y, x) or \
+                    not torch.equal(torch.signbit(y), torch.signbit(x)):
                 bad.append(f'n={n} {dt} {nm}: round trip not exact')
         if n <= 64 or dt == torch.float64:
             s = sym.to(dt) if (n + 1) * (n + 1) < 200 or dt == torch.float64 \
